@@ -119,6 +119,13 @@ class EventsOracle:
         return idx, roots, terminate, [r["ev"] for r in rep]
 
 
+def steps_that_recorded_rows(oracle, n_rows_final):
+    """number of outer steps (completed detector calls) after which at least one new row was recorded (a terminal event sitting exactly on
+    the start of its step leaves nothing recorded)"""
+    vis = [call["rows_visible"] for call in oracle.calls] + [n_rows_final]
+    return sum(1 for i in range(len(oracle.calls)) if vis[i + 1] > vis[i])
+
+
 def spec_events(c, oracle):
     """reference semantics: all oracle reports in order, minus repeats of the same event within eps^0.7 of its previous occurrence"""
     out = []
@@ -187,6 +194,13 @@ def scenario(c, inst, props):
     sgn = -1 if backward else 1
     oracle.fault_call = inst.get("fault_call")
     with patched(ds, "handle_events", oracle):
+        if inst.get("two_calls"):
+            # the span is covered by two integrate(events=...) calls: a crossing found at the very end of the first call is met again at
+            # the very start of the second (the detector may report it both times: same event, same time)
+            T1 = t0 + 0.5 * (tf - t0)
+            st, r = run(a.integrate, T1, events=events, callback=[cb])
+            if st != "ok":
+                return
         st, r = run(a.integrate, events=events, callback=[cb])
         if oracle.faulted:
             # history: the event search of one step raised; the caller simply calls integrate() again with the same events
@@ -223,6 +237,15 @@ def scenario(c, inst, props):
                                      c.le(0, (T[i + 1] - call["t_prev"]) * (call["t_next"] - T[i + 1]), 64)]) for call in oracle.calls]
                              ) if oracle.calls else False)
         c.check("%s.every_recorded_step_was_examined_by_the_detector" % min(props & {"C08", "C09"}).lower(), c.all(cov), info=dict(rows=len(T), calls=len(oracle.calls)))
+    if "C20" in props:
+        # callbacks: once per outer step (the sub-steps taken to land on a terminal event share one final invocation), each invocation
+        # sees rows recorded since the previous one
+        c.check("c20.events.callbacks_once_per_outer_step", len(cb_calls) == steps_that_recorded_rows(oracle, len(T)),
+                info=dict(callbacks=len(cb_calls), outer_steps=len(oracle.calls), steps_with_rows=steps_that_recorded_rows(oracle, len(T)), rows=len(T)))
+        c.check("c20.events.every_invocation_sees_new_rows", all(cb_calls[i] < cb_calls[i + 1] for i in range(len(cb_calls) - 1)) and (not cb_calls or cb_calls[0] >= 2),
+                info=dict(rows_seen=cb_calls))
+        c.check("c20.events.last_invocation_sees_the_final_row", (not cb_calls) or cb_calls[-1] == len(T), info=dict(rows_seen=cb_calls, rows=len(T)))
+        return
     if "C03" in props:
         # the grid properties of C03 on runs that monitor events (buffer growth inside the event section, re-recorded steps)
         c.check("c03.events.first_row_is_initial_condition", c.all([c.eq(T[0], t0), _eqv(c, a.y[0], c.array([c.real("y0_%d" % i) for i in range(int(np.prod(shape)))]).reshape(shape))]))
@@ -304,7 +327,7 @@ def scenario(c, inst, props):
             c.check(P9 + ".rows_strictly_monotone", c.all([c.lt(0, sgn * (T[i + 1] - T[i])) for i in range(len(T) - 1)]))
             c.check(P9 + ".last_reported_event_is_the_terminal_one", (c.eq(rec[-1].t, troot, 64) if rec[-1].event is term_call["reported"][-1]["ev"] else False)
                     if len(rec) > 0 else False)
-            c.check(P9 + ".callbacks_once_per_outer_step", len(cb_calls) == len(oracle.calls), info=dict(cb=len(cb_calls), steps=len(oracle.calls)))
+            c.check(P9 + ".callbacks_once_per_outer_step", len(cb_calls) == steps_that_recorded_rows(oracle, len(T)), info=dict(cb=len(cb_calls), steps=len(oracle.calls)))
             if dense:
                 piece_checks(c, P9 + ".dense", a, probe, backward)
             # continuation to the requested end
@@ -326,7 +349,7 @@ def scenario(c, inst, props):
                 if not oracle.faulted:      # (after a failed call the status keeps reporting that failure: not stated otherwise by any property)
                     c.check(P9 + ".without_terminal_event_status_completed", spans.status_ok(a))
                 c.check(P9 + ".without_terminal_event_reaches_target", c.le(absval(c, T[-1] - tf), 64 * spans.EPS64 * 64))
-                c.check(P9 + ".callbacks_once_per_outer_step", len(cb_calls) == len(oracle.calls) == len(T) - 1, info=dict(cb=len(cb_calls), steps=len(oracle.calls), rows=len(T)))
+                c.check(P9 + ".callbacks_once_per_outer_step", len(cb_calls) == steps_that_recorded_rows(oracle, len(T)) == len(T) - 1, info=dict(cb=len(cb_calls), steps=len(oracle.calls), rows=len(T)))
                 if dense:
                     piece_checks(c, P9 + ".dense", a, probe, backward)
 
